@@ -30,9 +30,12 @@ def pieces (input : Bytes) : Nat → List Token → Bytes
     (input.drop prev).take (t.pos.off - prev) ++ (input.drop t.pos.off).take (t.stop.off - t.pos.off) ++
       pieces input t.stop.off rest
 
-/-- Cover: what no token covers is blanks (the bytes `skipSpaces` steps over). -/
+/-- a byte that may lie between two tokens: blank or tab -/
+def isGapByte (c : UInt8) : Bool := c == 0x20 || c == 0x09
+
+/-- Cover: what no token covers is blanks and tabs (the bytes `skipSpaces` steps over). -/
 def covered (input : Bytes) (toks : List Token) : Bool :=
-  (gaps input 0 toks).all (· == 0x20)
+  (gaps input 0 toks).all isGapByte
 
 /-- Offsets of the LF bytes of `rest`, which starts at offset `i`. -/
 def lfOffsetsFrom : Nat → Bytes → List Nat
@@ -61,7 +64,7 @@ def judge (input : Bytes) (toks : List Token) : Verdict :=
       (t.stop.off == t.pos.off + 1 && t.stop.line == t.pos.line + 1 && t.stop.col == 1)) then
     ⟨false, "a Newline token does not span exactly one byte / one line"⟩
   else if !linesOk input toks then ⟨false, "token line number differs from 1 + number of LF bytes before it"⟩
-  else if !covered input toks then ⟨false, "bytes other than blanks are not covered by any token"⟩
+  else if !covered input toks then ⟨false, "bytes other than blanks and tabs are not covered by any token"⟩
   else ⟨true, ""⟩
 
 end HL.Spec.LexSpec
